@@ -2,7 +2,7 @@
     Syncer (tail selection and pruning) over a store and a network chain.
     [chk16 c = (agree, ok, class)]. *)
 From Coq Require Import ZifyBool ZifyNat ZifyN.
-From GH Require Import Base.Prelude Model.Tail.
+From GH Require Import Base.Prelude Model.Tail Proofs.TailP.
 
 Record case16 := Case16 {
   k_params : params;
@@ -112,19 +112,137 @@ Definition ok16 (c : case16) : bool :=
     && keeps_window c
   end.
 
-(** ** Known-finding classes (open findings of known_findings.d/C16.json).
-    A class is a region of the inputs, described by the reason [why] the model
-    of the current code gives for the outcome, together with "the implementation
-    shows exactly this known misbehaviour" ([agree]); any other failure is class 0. *)
-Definition region16 (c : case16) : N :=
-  match snd (start_run (k_params c) (k_times c) (k_now c) (k_store c)) with
-  | WDelete => 2                                             (* F9a: new tail above store head + 1 *)
-  | _ => 0
-  end.
-
+(** ** Known-finding classes: none is open (known_findings.d/C16.json is gone);
+    every oracle failure is reported. *)
 Definition chk16 (c : case16) : bool * bool * N :=
-  let agree := obs_eqb (model16 c) (k_obs c) in
-  let ok := ok16 c in
-  (agree, ok, if ok then 0 else if agree then region16 c else 0).
+  (obs_eqb (model16 c) (k_obs c), ok16 c, 0).
 
+(** ** The oracle and the model: the model's own observation ALWAYS satisfies the
+    whole property oracle (so, for a store that was one gap-free chain before,
+    [agree] implies [ok]) *)
+Lemma valid_spec_eq p : valid_spec p = params_valid p.
+Proof.
+  unfold valid_spec, params_valid, hash_unset.
+  destruct (p_hash p), (0 <? p_trusting p)%Z, (Z.ltb_spec (p_window p) 0), (Z.leb_spec 0 (p_window p)),
+    (Z.ltb_spec (p_block p) 0), (Z.leb_spec 0 (p_block p)), (Z.ltb_spec (p_recency p) 0), (Z.leb_spec 0 (p_recency p)),
+    (p_window p =? 0)%Z, (p_from p =? 0); try reflexivity; lia.
+Qed.
 
+Lemma forallb_in_chain times req :
+  Forall (fun h => 1 <= h <= net_head times) req -> forallb (fun h => in_chain times h) req = true.
+Proof.
+  intros F. apply forallb_forall. intros h Hin. rewrite Forall_forall in F.
+  apply in_chain_spec. apply F. exact Hin.
+Qed.
+
+Lemma keeps_window_superset c :
+  (forall h, st_has (k_store c) h = true -> st_has (o_store (k_obs c)) h = true) -> keeps_window c = true.
+Proof.
+  intros Hs. unfold keeps_window. destruct (_ && _); [|reflexivity].
+  apply forallb_forall. intros h _. destruct (st_has (k_store c) h) eqn:E; [|reflexivity].
+  rewrite (Hs h E). reflexivity.
+Qed.
+
+Lemma store_chain_ok_wf p times now st o :
+  wf (o_store o) (net_head times) -> (s_tail (o_store o) = 0 -> s_tail st = 0 /\ o_out o <> OOk) ->
+  store_chain_ok (Case16 p times now st o) = true.
+Proof.
+  intros [We Wc] Hz. unfold store_chain_ok. cbn [k_store k_obs].
+  destruct (s_extra st); [|reflexivity]. rewrite We.
+  unfold st_empty. destruct (N.eqb_spec (s_tail (o_store o)) 0) as [E|E].
+  - destruct (Hz E) as [Hs Ho]. destruct Wc as [[_ Wh]|Wc]; [|lia].
+    rewrite Wh, Hs. cbn. destruct (o_out o); cbn; auto; contradiction.
+  - destruct Wc as [[Wt _]|Wc]; [contradiction|]. lia.
+Qed.
+
+Lemma heights_from_in lo k h : lo <= h < lo + N.of_nat k -> In h (heights_from lo k).
+Proof.
+  revert lo. induction k as [|k IH]; intros lo Hh; [lia|].
+  cbn [heights_from]. destruct (N.eq_dec h lo) as [->|Hne]; [left; reflexivity|right].
+  apply IH. lia.
+Qed.
+
+Lemma spaced_mono times b lo hi : spaced times b lo hi = true ->
+  forall h, lo <= h < hi -> (0 <= tmf times (h + 1) - tmf times h)%Z.
+Proof.
+  unfold spaced. rewrite forallb_forall. intros H h Hh.
+  assert (Hin : In h (heights_from lo (N.to_nat (hi - lo)))) by (apply heights_from_in; rewrite N2Nat.id; lia).
+  specialize (H h Hin). cbn beta in H. unfold tmf, tm0.
+  destruct (tm times h); [|discriminate]. destruct (tm times (h + 1)); [|discriminate]. lia.
+Qed.
+
+(** the window clause of the oracle holds of every run of the model (theorem
+    [start_keeps_window], in boolean form) *)
+Lemma keeps_window_model p times now st :
+  wf st (net_head times) -> net_head times + 2 < two64 -> 1 <= net_head times -> sane (p_window p) ->
+  keeps_window (Case16 p times now st (start_step p times now st)) = true.
+Proof.
+  intros Hwf H64 Hn Sw. unfold keeps_window. cbn [k_params k_times k_store k_obs].
+  destruct (window_mode p && (0 <? p_block p)%Z && negb (st_empty st) &&
+            spaced times (p_block p) (s_tail st) (net_head times)) eqn:C; [|reflexivity].
+  assert (Hwm : window_mode p = true) by lia.
+  assert (Hsp : spaced times (p_block p) (s_tail st) (net_head times) = true) by lia.
+  unfold window_mode, hash_unset in Hwm.
+  destruct (p_hash p) eqn:Hh; try discriminate. cbn in Hwm.
+  apply forallb_forall. intros h _.
+  destruct (st_has st h) eqn:E1; [|reflexivity].
+  destruct (st_has (o_store (start_step p times now st)) h) eqn:E2; [reflexivity|]. cbn.
+  pose proof (start_keeps_window p times now st Hwf H64 Hn Hh ltac:(lia) Sw (spaced_mono _ _ _ _ Hsp) h E1 E2) as K.
+  unfold tmf in K. lia.
+Qed.
+
+Theorem model16_ok p times now st :
+  wf st (net_head times) -> net_head times + 2 < two64 -> 1 <= net_head times -> sane (p_window p) ->
+  ok16 (Case16 p times now st (start_step p times now st)) = true.
+Proof.
+  intros Hwf H64 Hn Sw.
+  unfold ok16. cbn [k_params k_times k_now k_store k_obs].
+  pose proof (keeps_window_model p times now st Hwf H64 Hn Sw) as KW.
+  pose proof (start_run_no_panic p times now st) as NP.
+  pose proof (start_window_any p times now st Hwf H64 Hn) as WA.
+  unfold start_step in *.
+  pose proof (start_run_facts p times now st Hwf H64) as F.
+  pose proof (start_run_store p times now st Hwf H64) as S.
+  destruct (start_run p times now st) as [m w]. cbn [fst snd] in *.
+  destruct S as (Sw' & Sn & Snd).
+  rewrite valid_spec_eq.
+  destruct w.
+  - (* WDone *)
+    destruct F as (Hv & Ho & Hr & Hne).
+    rewrite Ho, Hv. cbn. rewrite (forallb_in_chain _ _ Hr). rewrite Bool.orb_true_r. cbn.
+    rewrite KW. rewrite Bool.andb_true_r. apply store_chain_ok_wf; auto. intros; contradiction.
+  - (* WNoCall *)
+    destruct F as (Hv & -> & He). cbn. rewrite Hv. cbn.
+    rewrite Bool.orb_true_r. cbn. rewrite KW. rewrite Bool.andb_true_r.
+    apply store_chain_ok_wf; cbn; auto. unfold st_empty in He. intros; lia.
+  - (* WInvalid *)
+    destruct F as (Hv & ->). cbn. rewrite Hv. reflexivity.
+  - (* WInitExpired *)
+    destruct F as (Hv & -> & Hl). cbn. rewrite Hv. cbn.
+    unfold legit_err at 1. cbn [k_params k_times k_store k_now]. rewrite Hl. cbn.
+    rewrite Bool.orb_true_r. cbn. rewrite KW. rewrite Bool.andb_true_r.
+    apply store_chain_ok_wf; cbn; auto. intros; split; [assumption|discriminate].
+  - (* WDivZero: unreachable *) contradiction.
+  - contradiction.
+  - (* WZero: only in window mode, where it is unreachable *)
+    destruct F as (Hv & Ho & Hh & Hf & _). destruct (WA Hh Hf) as (A & _). destruct A as [A|[A|[A|A]]]; discriminate.
+  - (* WFetch: the configured SyncFromHeight / SyncFromHash names no header of the network *)
+    destruct F as (Hv & Ho & Hm & _).
+    destruct Hm as [[k [Hk Hc]]|[(Hh & Hf & Hc)|(Hh & Hf)]].
+    + rewrite Ho, Hv. cbn.
+      assert (L : legit_err (Case16 p times now st m) = true).
+      { unfold legit_err. cbn [k_params k_times]. rewrite Hk, Hc. cbn. apply Bool.orb_true_r. }
+      rewrite L. unfold window_mode, hash_unset. rewrite Hk. cbn. rewrite KW. rewrite Bool.andb_true_r.
+      apply store_chain_ok_wf; auto. intros E. split; [|rewrite Ho; discriminate].
+      destruct (N.eq_dec (s_tail st) 0); [assumption|]. specialize (Sn ltac:(assumption)). contradiction.
+    + rewrite Ho, Hv. cbn.
+      assert (L : legit_err (Case16 p times now st m) = true).
+      { unfold legit_err. cbn [k_params k_times]. rewrite Hh. unfold in_chain in Hc.
+        assert (HH : (0 <? p_from p) && (net_head times <? p_from p) = true) by lia. rewrite HH. apply Bool.orb_true_r. }
+      rewrite L. unfold window_mode, hash_unset. rewrite Hh. cbn.
+      destruct (N.eqb_spec (p_from p) 0); [lia|]. cbn. rewrite KW. rewrite Bool.andb_true_r.
+      apply store_chain_ok_wf; auto. intros E. split; [|rewrite Ho; discriminate].
+      destruct (N.eq_dec (s_tail st) 0); [assumption|]. specialize (Sn ltac:(assumption)). contradiction.
+    + destruct (WA Hh Hf) as (A & _). destruct A as [A|[A|[A|A]]]; discriminate.
+  - contradiction.
+Qed.
